@@ -11,15 +11,16 @@ import "github.com/kelindar/smutex"
 type SimPoint uint8
 
 const (
-	simBeforeRLock   SimPoint = 1 // about to take the block read latch; arg = block
-	simBeforeLock    SimPoint = 2 // commit id drawn, about to take the block write latch; arg = block
-	simAfterUnlock   SimPoint = 3 // block write latch released; arg = block
-	simMidCommit1    SimPoint = 4 // write latch held, row markers applied; arg = block
-	simMidCommit2    SimPoint = 5 // write latch held, one column applied, its computed columns not yet; arg = block
-	simMidCommit3    SimPoint = 6 // write latch held, all columns applied, commit not yet emitted; arg = block
-	simAfterReserve  SimPoint = 7 // insert reserved its offset; arg = offset
-	simKeyChecked    SimPoint = 8 // InsertKey/UpsertKey found the key absent, insert not yet started
-	simSnapshotPhase SimPoint = 9 // arg 1: recorder opened, 2: state written, 3: recorder closed, log not yet copied
+	simBeforeRLock   SimPoint = 1  // about to take the block read latch; arg = block
+	simBeforeLock    SimPoint = 2  // commit id drawn, about to take the block write latch; arg = block
+	simAfterUnlock   SimPoint = 3  // block write latch released; arg = block
+	simMidCommit1    SimPoint = 4  // write latch held, row markers applied; arg = block
+	simMidCommit2    SimPoint = 5  // write latch held, one column applied, its computed columns not yet; arg = block
+	simMidCommit3    SimPoint = 6  // write latch held, all columns applied, commit not yet emitted; arg = block
+	simAfterReserve  SimPoint = 7  // insert reserved its offset; arg = offset
+	simKeyChecked    SimPoint = 8  // InsertKey/UpsertKey found the key absent, insert not yet started
+	simSnapshotPhase SimPoint = 9  // arg 1: recorder opened, 2: state written, 3: recorder closed, log not yet copied
+	simIndexBuild    SimPoint = 10 // CreateIndex/CreateSortIndex about to back-fill a block (no lock held); arg = block
 )
 
 // Exported aliases so that the simulator can name the points.
@@ -33,6 +34,7 @@ const (
 	SimAfterReserve  = simAfterReserve
 	SimKeyChecked    = simKeyChecked
 	SimSnapshotPhase = simSnapshotPhase
+	SimIndexBuild    = simIndexBuild
 )
 
 // SimHook, when set, is called at every yield point with the collection, its sharded block
